@@ -546,6 +546,15 @@ func (env *Env) call(x *ECall) Val {
 			}
 		}
 		return n.c(x.Args[0])
+	case "iter":
+		// the value of the expression at the head of the innermost enclosing loop (start of the current iteration)
+		if env.st.iter == nil {
+			cfail("iter() outside a loop")
+		}
+		if len(x.Args) != 1 {
+			cfail("iter() takes one argument")
+		}
+		return env.at(env.st.iter).c(x.Args[0])
 	case "has":
 		return boolVal(vc.resHas(env.st, arg(0).T, arg(1).T))
 	case "rv":
